@@ -5,12 +5,24 @@ package dnsregserver
 import (
 	"github.com/refraction-networking/conjure/pkg/metrics"
 	"github.com/refraction-networking/conjure/pkg/regserver/regprocessor"
+	pb "github.com/refraction-networking/conjure/proto"
 	log "github.com/sirupsen/logrus"
 )
 
 // Exports for the C11 harness (exist only in the scratch copy).
 
 func NewVerifDNSRegServer(p *regprocessor.RegProcessor, latestGen uint32, logger log.FieldLogger, m *metrics.Metrics) *DNSRegServer {
+	return &DNSRegServer{processor: p, latestCCGen: latestGen, logger: logger, metrics: m}
+}
+
+// VerifRegistrar: what the front end needs of the processor (the package's own interface is unexported)
+type VerifRegistrar interface {
+	RegisterUnidirectional(*pb.C2SWrapper, pb.RegistrationSource, []byte) error
+	RegisterBidirectional(*pb.C2SWrapper, pb.RegistrationSource, []byte) (*pb.RegistrationResponse, error)
+}
+
+// NewVerifDNSRegServerOn: the front end on a processor the harness can replace
+func NewVerifDNSRegServerOn(p VerifRegistrar, latestGen uint32, logger log.FieldLogger, m *metrics.Metrics) *DNSRegServer {
 	return &DNSRegServer{processor: p, latestCCGen: latestGen, logger: logger, metrics: m}
 }
 
